@@ -215,6 +215,8 @@ pub fn tx_alphabet(n: &Node, cfg: &AlphaCfg) -> Vec<(String, Transaction, bool)>
             acc.push(("no-inputs-new-token".into(), tx_t(TxKind::Normal, vec![], vec![out_t(500, Denom::NewCustom)], 0, vec![0x4e]), false));
             // a zero-valued coin of a denomination the transaction has no input of (arithmetically balanced)
             acc.push(("zero-valued-foreign-output".into(), tx_t(TxKind::Normal, vec![c.0], vec![out_t(v, Denom::Mel), out_t(0, Denom::Custom(HashVal([0x77; 32]).into()))], 0, vec![]), false));
+            // a faucet-kind transaction that lists a coin as an input without bringing its covenant: inputs are authorised whatever the kind
+            acc.push(("faucet-consuming-a-coin-without-its-covenant".into(), mktx(TxKind::Faucet, vec![c.0], vec![out_t(1, Denom::Mel)], 0, vec![], vec![0x66]), false));
             acc.push(("underpaid-zero-outs".into(), tx_t(TxKind::Normal, vec![c.0], vec![], 0, vec![]), false));
             if v > 256 {
                 let outs: Vec<CoinData> = (0..256).map(|i| out_t(if i == 0 { v - 255 } else { 1 }, Denom::Mel)).collect();
